@@ -138,7 +138,7 @@ static unsigned long long nx_state_hash(void) { return 0; }
 static int nx_leaf_bytes(char *buf, int max)
 {
 	(void) max;
-	strcpy(buf, ESC ":q!\n");
+	strcpy(buf, ESC ":w! out\n:q!\n");
 	return strlen(buf);
 }
 static void nx_at_exit(void)
@@ -181,6 +181,7 @@ int main(int argc, char **argv)
 	nx_hist_name = hist_name;
 	nx_pre_state = pre_state;
 	nx_op_effect = op_effect;
+	nx_trace_every = atoi(nv_arg(argc, argv, "trace", nv_thorough ? "1999" : "199"));
 	signal(SIGPIPE, SIG_IGN);
 	if (nv_arg(argc, argv, "cfg", NULL)) {
 		run_config(atoi(nv_arg(argc, argv, "cfg", "0")), nx_replay_n >= 0 ? 12 : d, NOPS);
